@@ -49,6 +49,12 @@ def check(ctx):
     C04_more.parts_C09(ctx)
     rows = R.run_kind(ctx, 'multi')
     R.compare(ctx, rows, lambda d: (flag(d), ctx_of(d.get('trace')), d.get('sctx')), 'C09 context markers through multi-source operators (delivered contexts; context each source is subscribed with)', nontrivial=lambda c, gd: gd.get('trace', '-') != '-', max_report=2)
+    # Share: every upstream subscription is made with the context of the subscriber that creates the generation (subscriber i
+    # carries the marker 70+i) — also for the generations that follow a reset (the C11 sequences; field uctx)
+    for kind in ('share', 'sharet'):
+        rows = R.run_kind(ctx, kind)
+        R.compare(ctx, rows, lambda d: (flag(d), d.get('uctx')), f'C09 context each upstream subscription of a shared observable is made with ({kind})',
+                  nontrivial=lambda c, gd: gd.get('uctx', '-') != '-', max_report=2)
     # time-driven and hand-off operators: a burst of values with one marker each, timers / goroutines racing — every
     # notification is delivered with ITS OWN context (kind=ctxpair)
     rows = R.run_kind(ctx, 'ctxpair', shards=8)
